@@ -107,48 +107,9 @@ func (d *SDef) refLevels(t TRef, levels int) RefD {
 
 func namedRef(kind, name string) RefD { n := name; return RefD{Kind: kind, Name: &n} }
 
-// reachable is the set of named types of the schema: everything referenced, directly or
-// indirectly, from the directive definitions, the root operation types and the additional types.
-func (d *SDef) reachable() map[string]bool {
-	seen := map[string]bool{}
-	var visit func(n string)
-	visitIVs := func(ivs []InputVal) {
-		for _, iv := range ivs {
-			visit(iv.Type.N)
-		}
-	}
-	visit = func(n string) {
-		if n == "" || seen[n] {
-			return
-		}
-		seen[n] = true
-		t := d.typeByName(n)
-		if t == nil {
-			return
-		}
-		for _, f := range t.Fields {
-			visit(f.Type.N)
-			visitIVs(f.Args)
-		}
-		visitIVs(t.Inputs)
-		for _, i := range t.Ifaces {
-			visit(i)
-		}
-		for _, m := range t.Members {
-			visit(m)
-		}
-	}
-	for _, dd := range d.Dirs {
-		visitIVs(dd.Args)
-	}
-	visit(d.Query)
-	visit(d.Mutation)
-	visit(d.Subscription)
-	for _, a := range d.Additional {
-		visit(a)
-	}
-	return seen
-}
+// reachable is the set of named types of the schema: everything schema.Inspect reaches from the
+// directive definitions, the root operation types and the additional types (appdirs.go).
+func (d *SDef) reachable() map[string]bool { return d.reach(false) }
 
 const defaultMarker = "<default>"
 
